@@ -67,7 +67,9 @@ FIRST_ARRAY_CODE = 15            # Valve: AT_FIRST_ARRAY_TYPE = AT_ELEMENT_ARRAY
 BLOB300 = (bytes(range(256)) + bytes(range(44))).hex()
 
 VALUES: dict[str, list] = {
-    'int': [('0', 0), ('1', 1), ('neg1', -1), ('min', -2 ** 31), ('max', 2 ** 31 - 1)],
+    'int': [('0', 0), ('1', 1), ('neg1', -1), ('min', -2 ** 31), ('max', 2 ** 31 - 1),
+            # text carries integers of any size (binary has 32 bits: there the export has to refuse)
+            ('big53', 2 ** 53 + 1), ('negbig', -(2 ** 63) - 5)],
     'float': [('0', 0.0), ('1p5', 1.5), ('neg0', -0.0), ('neg', -2.25), ('f32max', F32MAX),
               ('f32minnorm', f32(1.1754943508222875e-38)), ('denorm', f32(1.401298464324817e-45)),
               ('tiny', f32(1e-7)), ('edge', f32(1.0000005)), ('big', 16777216.0), ('frac', f32(0.1)), ('micro', f32(1e-6))],
@@ -222,6 +224,11 @@ def inexpressible(doc: dict, cfg: dict):
             return 'time_before_v3'
     if cfg['uni'] == 'ascii' and not all(s.isascii() for s in doc_strings(doc)):
         return 'nonascii_under_ascii'
+    if cfg['enc'] == 'bin':
+        for el in doc['els']:
+            for _, vt, shape, payload in el['a']:
+                if vt == 'int' and any(not -2 ** 31 <= v < 2 ** 31 for v in ([payload] if shape == 's' else payload)):
+                    return 'int_beyond_32_bits'
     return None
 
 
@@ -1143,7 +1150,10 @@ GRAPHCFG = [c for c in ALLCFG if c['uni'] == 'ascii']
 GRAPHCFG_TOP = [c for c in GRAPHCFG if c.get('ver') in (1, 5) or (c['enc'] == 'kv2' and c['flat'] == c['cull'])]
 
 NAMES = ['a', 'A', 'id', 'ID', 'we"ird', 'back\\slash', 'bs\\n', 'sp ace', '\u00e9', '', "it's", 'l1\nl2', 'name', 'Name', 'L' * 256, 'M' * 300,
-         'Stra\u00dfe', '\u039f\u0394\u039f\u03a3', '\ufb01le']     # lower() and casefold() disagree on these
+         'Stra\u00dfe', '\u039f\u0394\u039f\u03a3', '\ufb01le',     # lower() and casefold() disagree on these
+         'DMEStubElement', 'DMENullElement']      # the marker type names of stubs / NULL, here as free-form strings of ordinary elements
+# (not included: an element type spelt like a value-type keyword - "element", "int_array", ... - which the KeyValues2 grammar itself
+# cannot tell from an attribute type, so the format cannot carry it)
 NAMEKEYS = ['Name', 'NAME']
 REP_GRAPHS = [
     [[['s', 1]], [['s', 2]], []],                       # chain
